@@ -333,6 +333,23 @@ func (f *frame) applyContract(sp *FuncSpec, callee *ssa.Function, args []Val, pc
 	var mods []string
 	if sp.HasMod {
 		for _, m := range sp.Modifies {
+			// mapof(p) / elemsof(p): the heaps of the map / slice passed as parameter p
+			// (for contracts on generic functions)
+			if strings.HasPrefix(m, "mapof(") || strings.HasPrefix(m, "elemsof(") {
+				pn := strings.TrimSuffix(m[strings.Index(m, "(")+1:], ")")
+				for i, name := range sp.Params {
+					if name != pn || i >= len(args) || args[i].Typ == nil {
+						continue
+					}
+					switch u := args[i].Typ.Underlying().(type) {
+					case *types.Map:
+						mods = append(mods, mapHeapNames(u)...)
+					case *types.Slice:
+						mods = append(mods, "E$"+typeName(u.Elem()))
+					}
+				}
+				continue
+			}
 			mods = append(mods, c.resolveHeapNames(m, callee)...)
 		}
 	} else {
@@ -345,6 +362,7 @@ func (f *frame) applyContract(sp *FuncSpec, callee *ssa.Function, args []Val, pc
 	for _, h := range mods {
 		c.havocHeap(st, h)
 	}
+	c.bumpAlloc(st) // the callee may have allocated
 	for _, gi := range sp.GhostInits {
 		// the callee resets and then sets this flag: its value after the call is
 		// whatever the callee's postconditions say
@@ -423,6 +441,21 @@ func (c *Ctx) resolveHeapNames(item string, ctxFn *ssa.Function) []string {
 	}
 	if strings.HasPrefix(item, "ghost ") {
 		return []string{"ghost$" + strings.TrimSpace(item[6:])}
+	}
+	if strings.HasPrefix(item, "mapof(") || strings.HasPrefix(item, "elemsof(") {
+		pn := strings.TrimSuffix(item[strings.Index(item, "(")+1:], ")")
+		for _, p := range ctxFn.Params {
+			if p.Name() != pn {
+				continue
+			}
+			switch u := p.Type().Underlying().(type) {
+			case *types.Map:
+				return mapHeapNames(u)
+			case *types.Slice:
+				return []string{"E$" + typeName(u.Elem())}
+			}
+		}
+		return nil
 	}
 	pkg := pkgOfFn(ctxFn)
 	if strings.HasPrefix(item, "elems(") {
@@ -551,6 +584,7 @@ func (f *frame) abstractCall(callee *ssa.Function, cc *ssa.CallCommon, pc *Term,
 	for _, h := range ms.list() {
 		c.havocHeap(st, h)
 	}
+	c.bumpAlloc(st)
 	rt := cc.Signature().Results()
 	switch rt.Len() {
 	case 0:
